@@ -59,7 +59,13 @@ int main(int argc, char **argv)
       if (kind == 3 && n > 2) { /* a block larger than its string */ tmp[n + 1] = 7; tmp[n + 2] = 0; str = (char *) hook_alloc(tmp, n + 3); cur_alloc = n + 3; }
       else { str = (char *) hook_alloc(tmp, n + 1); cur_alloc = n + 1; }
     }
+    char *before = str;
     reproc_sink sink = reproc_sink_string(&str);
+    if (str != before) {
+      /* making the sink must not touch the caller's string (it is appended to, drain.h) */
+      fprintf(stderr, "constructor changed the string pointer\n");
+      return 3;
+    }
     int calls = 1 + rnd(4);
     for (int k = 0; k < calls; k++) {
       unsigned char chunk[64]; size_t n = rnd(5) == 0 ? 0 : rnd(40);
